@@ -35,9 +35,7 @@ m = dict(version=1,
                     baseline_off_cmd='cmake -G Ninja -B /repo/_build -S /repo -DCMAKE_BUILD_TYPE=RelWithDebInfo -DTesting=ON -DCMAKE_CXX_FLAGS=-Wno-error && cmake --build /repo/_build && cd /repo/_build && OMPI_ALLOW_RUN_AS_ROOT=1 OMPI_ALLOW_RUN_AS_ROOT_CONFIRM=1 ctest -j8 --timeout 900',
                     source_commits=[], add_only=True),
          engines=[dict(name='E2 irs', path='vlib/irs.py', serves_properties=sorted(k for k, v in props.PROPS.items() if v.get('engine', 'E2') != 'E1'),
-                       kind_free_text='path-forking symbolic executor of LLVM IR compiled from /repo on every run; integers as bit-vectors, doubles as exact reals (division-free), z3 decides every branch and check'),
-                  dict(name='E1 irc', path='vlib/irc.py', serves_properties=sorted(k for k, v in props.PROPS.items() if v.get('engine') == 'E1'),
-                       kind_free_text='LLVM IR -> C translator -> CBMC 6.11 with unwinding assertions')],
+                       kind_free_text='path-forking symbolic executor of LLVM IR compiled from /repo on every run; integers as bit-vectors, doubles as exact reals (division-free), z3 decides every branch and check.  (The IR -> C -> CBMC engine of the original plan was not built; see DESIGN.md Part I.)')],
          checks=checks, not_applicable=na,
          notes='fix: commits in /repo and known findings are listed in known_findings.jsonl; seeded changes used to test the checks are in seeded/')
 json.dump(m, open(os.path.join(V, 'MANIFEST.json'), 'w'), indent=1)
